@@ -436,10 +436,12 @@ def run_cold(lib, case):
 BUSY = ['SUM(TRUE,1)', 'TRUE&""', '1&""', '(4/4)&""', '1=TRUE', 'MAX(1,TRUE)', 'ABS(TRUE)', '2^53', '2^53/1', '9007199254740992+0',
         '"1"+0', '"1.0"+0', '1.0*1', 'IF(1,2,3)', 'IF(TRUE,2,3)', 'COUNT(1,TRUE,"1")', 'LEN(1)', 'LEN(TRUE)', 'UPPER("true")',
         'MATCH(1,{TRUE,1},0)', 'INDEX({1,2},TRUE)', 'ROUND(1,TRUE)', '1/0', 'nosuch+1', '1+*', '#REF!+1', 'SUM(1,NA())', '0=FALSE',
-        'DATE(2020,1,TRUE)', 'DEC2HEX(1)', 'DEC2HEX(TRUE)', 'SWITCH(1,TRUE,"t",1,"one")', 'N(TRUE)', 'AND(1,1)', 'OR(0,FALSE)']
+        'DATE(2020,1,TRUE)', 'DEC2HEX(1)', 'DEC2HEX(TRUE)', 'SWITCH(1,TRUE,"t",1,"one")', 'N(TRUE)', 'AND(1,1)', 'OR(0,FALSE)',
+        'sum(1,2)', 'Sum(1,2)', 'abs(0-1)', 'Abs(0-1)', 'Len("ab")', 'len("ab")', 'SUM(1,2)', 'sum(1,2)', 'Sum(1,2)', 'abs(0-1)']     # (q1 has Sum, abs, Len of its own)
 FRESH_PROBES = ['MAXA(4/4,0)=1', '(4/4)&""', '1&""', 'TRUE&""', 'ISLOGICAL(4/4)', 'ISNUMBER(TRUE)', 'SUM(1,TRUE)', '1=TRUE', '2^53+1',
                 '(2^53/1)+1', '"1"&""', 'SWITCH(1,TRUE,"t",1,"one")', 'SWITCH(TRUE,1,"one",TRUE,"t")', 'MATCH(TRUE,{1,TRUE},0)', 'LEN(4/4)',
-                'LEN(TRUE)', 'IF(4/4,"y","n")', 'COUNT(TRUE,4/4)', '0=FALSE', 'N(4/4)', 'ROUND(2.567,4/4)', 'DEC2HEX(4/4)', 'va*2', 'ABS(0-va)']
+                'LEN(TRUE)', 'IF(4/4,"y","n")', 'COUNT(TRUE,4/4)', '0=FALSE', 'N(4/4)', 'ROUND(2.567,4/4)', 'DEC2HEX(4/4)', 'va*2', 'ABS(0-va)',
+                'sum(1,2)', 'Sum(1,2)', 'abs(0-1)', 'Abs(0-1)', 'SUM(1,2)', 'ABS(0-1)', 'Len("ab")', 'len("ab")', 'LEN("ab")']
 
 
 def fresh_child(steps):
